@@ -711,7 +711,10 @@ class MemorizedFunc(Logger):
                 self.store_backend.get_cached_func_code([self.func_id])
             )
         except (IOError, OSError):  # some backend can also raise OSError
-            self._write_func_code(func_code, first_line)
+            # No trace of the code that computed the results possibly present
+            # (e.g. a clearing of the cache was interrupted after the removal
+            # of the stored code): they cannot be trusted, wipe them.
+            self.clear(warn=False)
             return False
         if old_func_code == func_code:
             return True
